@@ -1,0 +1,15 @@
+//go:build verif
+
+package verif
+
+// YieldHook, if non-nil, is invoked by Yield with the name of the yield site.
+// It may block. It must never be invoked while a sync.Mutex is held.
+var YieldHook func(site string)
+
+// Yield marks a point at which a verification scheduler may suspend the calling
+// Goroutine.
+func Yield(site string) {
+	if hook := YieldHook; hook != nil {
+		hook(site)
+	}
+}
